@@ -111,10 +111,11 @@ def negotiateModel (i : Bool × Option Unit) : List Ev × NegObs :=
 def sniUniverse : List SniSess :=
   [⟨0, 1, false, .p⟩, ⟨1, 0, false, .p⟩, ⟨1, 1, true, .x⟩, ⟨2, 0, false, .f⟩, ⟨0, 2, false, .n⟩]
 
-/-- every history of one or two sessions of the universe, with the default and with an explicit
-configuration -/
+/-- every history of one, two or three sessions of the universe (so also A,B,A and A,A,B), with the
+default and with an explicit configuration -/
 def serverNameDomain : List (Bool × List SniSess) :=
-  product [false, true] (sniUniverse.flatMap fun a => [a] :: sniUniverse.map fun b => [a, b])
+  product [false, true] (sniUniverse.flatMap fun a =>
+    [a] :: sniUniverse.flatMap fun b => [a, b] :: sniUniverse.map fun c => [a, b, c])
 
 def serverNameModel (i : Bool × List SniSess) : List (Option Name) :=
   sessions (if i.1 then some .explicit else none) i.2
